@@ -1,6 +1,8 @@
 import Wax.Generated
 import Wax.Parse
 import Wax.Depth
+import Wax.Query
+import Wax.Encode
 /-! The tie by regeneration: the tables the model's definitions use are the tables
 `tools/extract.py` has just read out of `/repo/src`.  Each theorem is closed by `decide`, so an
 edit of the Rust source that changes a table breaks the build here, naming the table. -/
@@ -20,5 +22,37 @@ theorem termn_table_is_source :
     Generated.terminationTable.all (fun r => decide ((ofT r.1).conj (ofT r.2.1) = ofK r.2.2.1 (ofT r.2.2.2))) = true ∧
     Generated.terminationTable.length = 25 ∧
     (Generated.terminationTable.map fun r => (r.1, r.2.1)).Nodup := by decide
+
+end Wax
+
+namespace Wax
+
+def ofW : Generated.W → When
+  | .always => .always | .sometimes => .sometimes | .never => .never
+
+/-- the three `When` truth tables regenerated from query.rs are the model's operators (nine rows
+    each, all keys present) -/
+theorem when_tables_are_source :
+    Generated.whenAnd.all (fun r => decide ((ofW r.1).and (ofW r.2.1) = ofW r.2.2)) = true ∧
+    Generated.whenOr.all (fun r => decide ((ofW r.1).or (ofW r.2.1) = ofW r.2.2)) = true ∧
+    Generated.whenCertainty.all (fun r => decide ((ofW r.1).certainty (ofW r.2.1) = ofW r.2.2)) = true ∧
+    Generated.whenAnd.length = 9 ∧ Generated.whenOr.length = 9 ∧ Generated.whenCertainty.length = 9 ∧
+    (Generated.whenAnd.map fun r => (r.1, r.2.1)).Nodup ∧
+    (Generated.whenOr.map fun r => (r.1, r.2.1)).Nodup ∧
+    (Generated.whenCertainty.map fun r => (r.1, r.2.1)).Nodup := by decide
+
+/-- the separator of the unix configuration and the root separator expression of the parser are the
+    model's `/`; the never-matching class and the semantic literals are the model's -/
+theorem constants_are_source :
+    Generated.separatorClassExpression.toList = ['/'] ∧
+    Generated.rootSeparatorExpression.toList = ['/'] ∧
+    Generated.neverExpression.toList = "[a&&b]".toList ∧
+    Generated.semanticLiterals.map String.toList = [['.'], ['.', '.']] := by decide
+
+/-- the printer of the never-matching class emits the regenerated constant -/
+theorem never_print_is_source : Re.never.print = Generated.neverExpression := by
+  simp [Re.print, Generated.neverExpression]
+
+theorem maxInvariantSize_is_source : Generated.maxInvariantSize = 65536 := by decide
 
 end Wax
